@@ -196,11 +196,34 @@ pub fn compare(a: &Outcome, b: &Outcome, rep: &mut CaseReport, pid: &str, label_
             (None, None) => {}
             (Some(x), Some(y)) => {
                 rep.judged_strict += 1;
+                // Notes of rewritten commits are compared on the lines the commit adds - the
+                // only lines blame and stats consult. The rebase/cherry-pick slow path writes
+                // cumulative notes (finding F5) whose never-consulted surplus depends on which
+                // original commits a mode hands it; that surplus is counted, not compared.
+                let restrict = |n: &BTreeSet<(String, String, u32)>| -> BTreeSet<(String, String, u32)> {
+                    match a.added.get(c) {
+                        Some(added) => n.iter().filter(|(p, _, l)| added.get(p).map(|s| s.contains(l)).unwrap_or(false)).cloned().collect(),
+                        None => n.clone(),
+                    }
+                };
+                let (xa, ya) = (restrict(&x.0), restrict(&y.0));
+                if x.0 != y.0 && xa == ya {
+                    rep.count("rewritten_notes_differing_only_in_lines_the_commit_does_not_add", 1);
+                }
+                let x = &(xa, x.1.clone(), String::new());
+                let y = &(ya, y.1.clone(), String::new());
                 if x.0 != y.0 {
                     let only_a: Vec<_> = x.0.difference(&y.0).take(6).collect();
                     let only_b: Vec<_> = y.0.difference(&x.0).take(6).collect();
                     rep.violate(
-                        sig("notes-differ"),
+                        if a.added.contains_key(c) && !a.tips.contains(c) && taint.is_none() {
+                            // F5: the slow path describes an intermediate rewritten commit's
+                            // lines by what they become later in the rewritten range, and how
+                            // much of the range it sees differs between the two runs
+                            format!("{pid}:rewritten-commit-note-is-cumulative")
+                        } else {
+                            sig("notes-differ")
+                        },
                         format!(
                             "commit {} [{kind}]: attestations differ: only in {label_a}: {:?}; only in {label_b}: {:?}",
                             &c[..8],
